@@ -52,7 +52,7 @@ package mcp
 
 // The package initializer establishes the package invariants (checked at the assignment) and the engine's
 // frame check shows the variables named in them are never assigned again, mutated or aliased.
-//@ func init [C07]
+//@ func init [C07, C20]
 
 // ---------------------------------------------------------------------------------------------
 // C06: initialization gate and per-request metadata
@@ -288,3 +288,51 @@ package mcp
 //@   ensures @other-streams-slots forall se string, st string, j int :: old(registered(s, se, st)) && (se != sessionID || st != streamID) ==> keptSlot(s.store[se][st], j)
 //@   ensures @other-streams-keep-index forall se string, st string, k int :: {mk(k), inDom(rawGet(s.store, se), st)} old(registered(s, se, st)) && (se != sessionID || st != streamID) ==> keptItem(s.store[se][st], k)
 //@   ensures @budget s.nBytes <= s.maxBytes + len(data)
+
+//@ global-invariant ErrEventsPurged != nil
+
+// After, step 1 (under the lock): decide between purged / unknown / the exact suffix, and copy it.
+// All index arithmetic in this contract is mathematical (unbounded); the code's is 64-bit.
+//@ func (*MemoryEventStore).After$1 [C20]
+//@   nopanic
+//@   requires storeWF(s)
+//@   ensures @unknown-stream !registered(s, sessionID, streamID) ==> result.1 != nil && len(result.0) == 0
+//@   ensures @purged registered(s, sessionID, streamID) && index + 1 < s.store[sessionID][streamID].first
+//@        ==> result.1 != nil && errIs(result.1, ErrEventsPurged) && len(result.0) == 0
+//@   ensures @exact-count registered(s, sessionID, streamID) && index + 1 >= s.store[sessionID][streamID].first
+//@        ==> result.1 == nil && len(result.0) == max(0, nextIdx(s.store[sessionID][streamID]) - (index + 1))
+//@   ensures @exact-items registered(s, sessionID, streamID) && index + 1 >= s.store[sessionID][streamID].first
+//@        ==> (forall i int :: {mk(i)} mk(i) && 0 <= i && i < len(result.0) ==> result.0[i] == item(s.store[sessionID][streamID], index + 1 + i))
+//@   ensures @private-copy len(result.0) > 0 ==> fresh(result.0)
+
+// After, step 2 (the iterator): yields the copied payloads in order, stopping when the consumer says so; an error
+// is yielded alone.
+//@ func (*MemoryEventStore).After$2 [C20]
+//@   track copyData
+//@   track yield
+//@   ghost ds := callResult(copyData, 1, 0)
+//@   ghost err := callResult(copyData, 1, 1)
+//@   modifies *
+//@   assert at call yield: @error-alone err != nil ==> calls(yield) == 0 && $1 == err && len($0) == 0
+//@   assert at call yield: @in-order err == nil ==> $1 == nil && calls(yield) < len(ds) && $0 == ds[calls(yield)]
+//@   ensures @copy-once calls(copyData) == 1
+//@   ensures @error-yielded err != nil ==> calls(yield) == 1
+//@   ensures @all-or-stopped err == nil ==> calls(yield) == len(ds) || (calls(yield) >= 1 && calls(yield) <= len(ds) && !lastResult(yield, 0))
+//@   loop 1: invariant calls(yield) == $idx && (calls(yield) >= 1 ==> lastResult(yield, 0))
+
+// SessionClosed: the session's streams are gone, every other session is untouched.
+//@ func (*MemoryEventStore).SessionClosed [C20]
+//@   requires storeWF(s)
+//@   modifies s.nBytes, mapOf(s.store)
+//@   ensures @wf storeWF(s) && result == nil
+//@   ensures @released !(sessionID in s.store)
+//@   ensures @others-untouched forall se string :: se != sessionID ==> (se in s.store) == old(se in s.store) && s.store[se] == old(s.store[se])
+
+//@ func (*MemoryEventStore).SetMaxBytes [C20]
+//@   requires storeWF(s)
+//@   modifies s.maxBytes, s.nBytes, fields(dataList.first), fields(dataList.size), fields(dataList.data), allElems("[]byte")
+//@   panics when n < 0
+//@   ensures @wf storeWF(s) && s.nBytes <= s.maxBytes
+//@   ensures @limit (n == 0 ==> s.maxBytes == defaultMaxBytes) && (n > 0 ==> s.maxBytes == n)
+//@   ensures @oldest-first forall se string, st string :: registered(s, se, st) ==> evictedHdr(s.store[se][st])
+//@   ensures @oldest-first-slots forall se string, st string, j int :: registered(s, se, st) ==> keptSlot(s.store[se][st], j)
